@@ -4,6 +4,7 @@ package checks
 
 import (
 	"bytes"
+	"crypto"
 	"fmt"
 	"os"
 	"runtime"
@@ -41,11 +42,11 @@ func (c *Ctx) N(quick, thorough int) int {
 
 // Check describes one registered property check.
 type Check struct {
-	ID    string
-	Level string // evidence level
-	Rule  string // how cases are generated and what counts as distinct non-trivial
+	ID     string
+	Level  string // evidence level
+	Rule   string // how cases are generated and what counts as distinct non-trivial
 	Assume []string
-	Run   func(*Ctx)
+	Run    func(*Ctx)
 }
 
 var Registry = map[string]*Check{}
@@ -102,6 +103,9 @@ func Main(id, tier string, seed int64, replay string) int {
 		// here it only means the workload cannot start
 		rec.HarnessError("key ring: " + err.Error())
 		return rec.Finish()
+	}
+	mon.OnWorkerPanic = func(v any, st string) {
+		rec.HarnessError(fmt.Sprintf("workload goroutine panicked: %v\n%s", v, firstLines(st, 30)))
 	}
 	ctx := &Ctx{Rec: rec, R: r.Sub(2), Tier: tier, Thorough: tier == "thorough", Seed: seed, Workers: workers, Keys: keys}
 	if p, v, st := mon.Try(func() { chk.Run(ctx) }); p {
@@ -173,3 +177,11 @@ func errStr(err error) string {
 	}
 	return err.Error()
 }
+
+type cryptoHash = crypto.Hash
+
+const (
+	hSHA256 = crypto.SHA256
+	hSHA384 = crypto.SHA384
+	hSHA512 = crypto.SHA512
+)
